@@ -491,6 +491,20 @@ func C10(p *core.Program, r *core.Report) {
 	r.Min("difference-indexed slices in mergeFragmentPayload", 1)
 	r.Count("difference-indexed slices in mergeFragmentPayload", nSl)
 
+	// ---- (1b) placement: the bytes that remain after skipping lastIndex-fragStart land at payload coordinate lastIndex
+	core.EachInstr(merge, func(in ssa.Instruction) {
+		sl, ok := in.(*ssa.Slice)
+		if !ok || sl.Low == nil {
+			return
+		}
+		sub, ok := sl.Low.(*ssa.BinOp)
+		if !ok || sub.Op != token.SUB {
+			return
+		}
+		ok, detail := mergePlacement(sl, sub.X, sub.Y)
+		r.Check(ok, "placement/"+fname(merge)+"/tail-lands-at-frontier", "the part of a fragment that lies beyond the merged prefix is written at the end of that prefix: appended to the accumulator that starts empty and grows only by such tails (its length is the frontier), or copied to accumulator[frontier:]; any other destination shifts the bytes of a fragment that overlaps its predecessor", p.Pos(sl.Pos()), "", detail+" — fragments [0,200) and [130,390) of two fragmentations: the second one's bytes 200.. are written from 130 on, 330..389 stay zero")
+	})
+
 	// ---- (2) monotone frontier
 	for _, fn := range []*ssa.Function{prep, merge} {
 		var frontier *ssa.Phi
@@ -1064,6 +1078,113 @@ func freshInLoop(v ssa.Value, l *core.Loop, seen map[ssa.Value]bool) bool {
 func allocInitInLoop(a *ssa.Alloc, l *core.Loop) bool {
 	for _, ref := range *a.Referrers() {
 		if st, ok := ref.(*ssa.Store); ok && st.Addr == ssa.Value(a) && l.Blocks[st.Block()] {
+			return true
+		}
+	}
+	return false
+}
+
+// mergePlacement decides where the tail sl = X[a-b:] of a fragment (a: merged
+// frontier, b: the fragment's start) is written. Accepted: append(acc, sl...)
+// with acc the loop-carried accumulator that starts empty, changes only by this
+// append and moves in lockstep with the frontier (frontier' = b+len(X) exactly
+// on the edges on which the append happened), so len(acc) == frontier; or
+// copy(acc[a:], sl).
+func mergePlacement(sl *ssa.Slice, a, b ssa.Value) (bool, string) {
+	refs := sl.Referrers()
+	n := 0
+	if refs != nil {
+		for _, ref := range *refs {
+			c, ok := ref.(*ssa.Call)
+			if !ok {
+				if _, dbg := ref.(*ssa.DebugRef); dbg {
+					continue
+				}
+				return false, "the tail flows into " + ref.String() + ", not into the accumulator"
+			}
+			bi, ok := c.Common().Value.(*ssa.Builtin)
+			if !ok {
+				return false, "the tail is passed to " + c.String()
+			}
+			args := c.Common().Args
+			switch bi.Name() {
+			case "append":
+				if len(args) != 2 || args[1] != ssa.Value(sl) {
+					return false, "the tail is the destination of an append"
+				}
+				acc, ok := args[0].(*ssa.Phi)
+				if !ok {
+					return false, "appended to " + valStr(args[0]) + ", which is not the loop-carried accumulator"
+				}
+				fphi, ok := a.(*ssa.Phi)
+				if !ok || fphi.Block() != acc.Block() {
+					return false, "the frontier " + valStr(a) + " is not carried by the same loop as the accumulator"
+				}
+				var lock func(ae, fe ssa.Value, depth int) (bool, string)
+				lock = func(ae, fe ssa.Value, depth int) (bool, string) {
+					if ae == ssa.Value(acc) && fe == ssa.Value(fphi) {
+						return true, ""
+					}
+					if ae == ssa.Value(c) {
+						if isEndOf(fe, b, sl.X) {
+							return true, ""
+						}
+						return false, "after the append the frontier becomes " + valStr(fe) + ", not start+len(fragment data)"
+					}
+					ap, ok1 := ae.(*ssa.Phi)
+					fp, ok2 := fe.(*ssa.Phi)
+					if ok1 && ok2 && ap.Block() == fp.Block() && depth < 4 {
+						for i := range ap.Edges {
+							if ok, d := lock(ap.Edges[i], fp.Edges[i], depth+1); !ok {
+								return false, d
+							}
+						}
+						return true, ""
+					}
+					return false, "accumulator " + valStr(ae) + " and frontier " + valStr(fe) + " do not move together"
+				}
+				for i, e := range acc.Edges {
+					pred := acc.Block().Preds[i]
+					if !acc.Block().Dominates(pred) { // entry edge
+						if !emptySliceValue(e) {
+							return false, "the accumulator starts as " + valStr(e) + ", not empty: appended tails land behind its initial length"
+						}
+						if k, ok := fphi.Edges[i].(*ssa.Const); !ok || k.Value == nil || k.Int64() != 0 {
+							return false, "the frontier does not start at 0"
+						}
+						continue
+					}
+					if ok, d := lock(e, fphi.Edges[i], 0); !ok {
+						return false, d
+					}
+				}
+				n++
+			case "copy":
+				dst, ok := args[0].(*ssa.Slice)
+				if len(args) != 2 || args[1] != ssa.Value(sl) || !ok {
+					return false, "copy with the tail as destination or into an unsliced buffer"
+				}
+				if dst.Low != a {
+					return false, "copied to " + valStr(dst.X) + "[" + valStr(dst.Low) + ":], but the skipped prefix lastIndex-fragStart puts the first remaining byte at the frontier " + valStr(a)
+				}
+				n++
+			default:
+				return false, "the tail is passed to " + bi.Name()
+			}
+		}
+	}
+	if n == 0 {
+		return false, "the sliced tail is never written to the payload"
+	}
+	return true, ""
+}
+
+func emptySliceValue(v ssa.Value) bool {
+	switch x := v.(type) {
+	case *ssa.Const:
+		return x.Value == nil
+	case *ssa.MakeSlice:
+		if k, ok := x.Len.(*ssa.Const); ok && k.Value != nil && k.Int64() == 0 {
 			return true
 		}
 	}
